@@ -92,12 +92,15 @@ Definition announced (s0 : rrset) (z : zone) : Prop :=
   exists ttl ds, look z (origin, tSOA, s_covers s0) = Some (ttl, ds) /\ set_eqb ds (s_data s0) = true.
 
 (* RFC 1995 does not fix the order of the records inside a deletion or addition section, RFC 5936
-   does not fix the order of an AXFR body: the general form of a valid response *)
+   does not fix the order of an AXFR body: the general form of a valid response.  Deleted records
+   may come in any order; added records / body records in any order and with repetitions. *)
+Definition same_set (x y : list rr) : Prop := forall r, In r x <-> In r y.
+
 Inductive ixfr_seqs : version -> list version -> list rr -> Prop :=
 | seqs_nil : forall v, ixfr_seqs v [] []
 | seqs_cons : forall v w rest D A tail,
     Permutation D (zminus (v_rest v) (v_rest w)) ->
-    Permutation A (zminus (v_rest w) (v_rest v)) ->
+    same_set A (zminus (v_rest w) (v_rest v)) ->
     ixfr_seqs w rest tail ->
     ixfr_seqs v (w :: rest) (soa_rr v :: D ++ soa_rr w :: A ++ tail).
 
@@ -106,4 +109,4 @@ Definition ixfr_response (v0 : version) (chain : list version) (recs : list rr) 
               recs = soa_rr (last chain v0) :: mid ++ [soa_rr (last chain v0)].
 
 Definition axfr_response (v : version) (recs : list rr) : Prop :=
-  exists B, Permutation B (body (v_rest v)) /\ recs = soa_rr v :: B ++ [soa_rr v].
+  exists B, same_set B (body (v_rest v)) /\ recs = soa_rr v :: B ++ [soa_rr v].
